@@ -166,6 +166,37 @@ def run_impl(case):
             except Hang: raise
             except BaseException as e:
                 return f'raised:setter:{exc_name(e)}', traceback.format_exc()[-1500:], list(AUD['bad'])
+            if case.get('earlier') and not case.get('formula_parts'):
+                # the process set of the application CHANGES after a first evaluation (update_numprocs, group added / removed,
+                # instances with different configurations): the status must be the one of the CURRENT table
+                plus, minus = case['earlier']
+                def quiet(fn, *a):
+                    # add_process / remove_process re-evaluate the status themselves: what they raise belongs to the earlier table
+                    try: fn(*a)
+                    except Hang: raise
+                    except BaseException: pass
+                for name in plus:                                   # `earlier` table = current table - plus + minus
+                    if name in app.processes: quiet(app.remove_process, name)
+                extra = []
+                for name, state, forced, expected, required, seq in minus:
+                    prules = ProcessRules(SUPV); prules.required = bool(required); prules.start_sequence = seq
+                    q = ProcessStatus('app', name, prules, SUPV); q.add_info(IDENT, full_info(name, state, bool(expected))); quiet(app.add_process, q); extra.append(name)
+                app.update_sequences()
+                try:
+                    with monitor('update', text): app.update()
+                except Hang: raise
+                except BaseException: pass
+                for name in extra:
+                    if name in app.processes: quiet(app.remove_process, name)
+                for name, state, forced, expected, required, seq in case['procs']:
+                    if name in plus:
+                        prules = ProcessRules(SUPV); prules.required = bool(required); prules.start_sequence = seq
+                        q = ProcessStatus('app', name, prules, SUPV); q.add_info(IDENT, full_info(name, state, bool(expected)))
+                        q.expected_exit = bool(expected)
+                        if forced is not None:
+                            q.force_state({'identifier': IDENT, 'state': forced, 'now_monotonic': 101.0, 'spawnerr': 'forced'})
+                        quiet(app.add_process, q)
+                app.update_sequences()
             try:
                 with monitor('update', text):
                     app.update()
@@ -385,6 +416,12 @@ def gen_case(rnd):
             case['formula'] = ast.unparse(ast.fix_missing_locations(ast.Expression(e)))
         except Exception:
             case['formula'] = '"web"'
+    if rnd.random() < 0.2 and len(procs) >= 2:
+        # an earlier evaluation on a different process set: some current processes did not exist yet, some others existed
+        plus = [p[0] for p in procs if rnd.random() < 0.4][:len(procs) - 1]
+        free = [n for n in NAMES if n not in names]
+        minus = [(n, rnd.choice(STATES), None, True, rnd.random() < 0.5, rnd.choice([0, 1, 2])) for n in free if rnd.random() < 0.3]
+        if plus or minus: case['earlier'] = [plus, minus]
     return case
 
 
